@@ -4,6 +4,7 @@ import Hv.Driver.Vhd
 import Hv.Driver.Hds
 import Hv.Driver.Vhdx
 import Hv.Driver.Vmdk
+import Hv.Driver.Qcow2
 open Hv Hv.Driver
 
 def dispatch (st : St) (toks : List String) : String :=
@@ -15,6 +16,7 @@ def dispatch (st : St) (toks : List String) : String :=
     else if cmd.startsWith "hds." then hdsCmd st toks
     else if cmd.startsWith "vhdx." then vhdxCmd st toks
     else if cmd.startsWith "vmdk." then vmdkCmd st toks
+    else if cmd.startsWith "qcow2." then qcow2Cmd st toks
     else "bad-cmd"
 
 partial def loop (h : IO.FS.Stream) (out : IO.FS.Stream) (st : St) : IO Unit := do
